@@ -180,6 +180,8 @@ func (t *Trial) Decode(dec *gob.Decoder) error {
 		return err
 	}
 	t.Generations = make([]Generation, ngen)
+	// the winner cached for the generations held before does not belong to the decoded ones
+	t.WinnerGeneration = nil
 	for i := 0; i < ngen; i++ {
 		gen := Generation{}
 		if err := gen.Decode(dec); err != nil {
